@@ -75,11 +75,14 @@ class Kernel:
         self.output_names = []
         self.early = []          # [(BExpr all-elements condition, [values])]
         self.notes = []
+        self.raises = []
 
 
 class KInterp:
-    def __init__(self, index, consts=None, call_handlers=None, inline=True, opaque_calls=True, free_syms=False):
+    def __init__(self, index, consts=None, call_handlers=None, inline=True, opaque_calls=True, free_syms=False,
+                 dyn_cls=None):
         self.free_syms = free_syms
+        self.dyn_cls = dyn_cls
         self.ix = index
         self.consts = dict(consts or {})
         self.call_handlers = dict(call_handlers or {})
@@ -94,6 +97,9 @@ class KInterp:
         """interpret function `fi`; args: dict param -> value overrides"""
         env = {}
         for p in fi.params():
+            if p in ("cls", "self") and fi.cls is not None:
+                env[p] = PyVal("<cls>")
+                continue
             if args and p in args:
                 env[p] = args[p]
             elif p in self.consts:
@@ -103,7 +109,14 @@ class KInterp:
         k = Kernel(fi)
         st = {"fi": fi, "env": env, "G": BExpr.true(), "loopvars": set(), "kernel": k, "mask": None,
               "returned": False}
-        self.block(fi.node.body, st)
+        k.env = env
+        k.error = None
+        try:
+            self.block(fi.node.body, st)
+        except Unsupported as ex:
+            if not getattr(self, "partial", False):
+                raise
+            k.error = str(ex)
         if not st["returned"]:
             k.outputs = []
         k.notes = self.notes
@@ -172,6 +185,11 @@ class KInterp:
             return self.ret(s, st)
         if isinstance(s, ast.Pass):
             return
+        if isinstance(s, ast.Raise):
+            st["kernel"].raises.append((st["G"], U(s.exc)[:80] if s.exc is not None else "re-raise"))
+            if st["G"].is_true() and not st.get("in_any"):
+                st["returned"] = True
+            return
         if isinstance(s, ast.Continue):
             raise Unsupported("bare continue outside `if c: continue`")
         if isinstance(s, (ast.Import, ast.ImportFrom)):
@@ -201,6 +219,9 @@ class KInterp:
 
     def if_stmt(self, s, st):
         test = self.eval(s.test, st)
+        if isinstance(test, LenOf):
+            self.notes.append("len(%s) assumed non-zero" % test.what)
+            test = PyVal(True)
         if isinstance(test, PyVal):
             return self.block(s.body if test.v else s.orelse, st)
         if isinstance(test, GExpr) and test.plain() is not None and test.plain().is_const():
@@ -215,6 +236,9 @@ class KInterp:
             only_log = all(isinstance(x, ast.Expr) and isinstance(x.value, ast.Call)
                            and U(x.value.func).split(".")[0] in ("logger", "logging", "warnings") for x in s.body)
             if only_log and not s.orelse:
+                return
+            if all(isinstance(x, ast.Raise) for x in s.body) and not s.orelse:
+                st["kernel"].raises.append((test.b, U(s.body[0].exc)[:80] if s.body[0].exc is not None else ""))
                 return
             has_ret = any(isinstance(x, ast.Return) for x in s.body)
             if has_ret:
@@ -325,6 +349,8 @@ class KInterp:
                         rk = rv.plain().key()
                     elif isinstance(rv, IndexSet):
                         rk, mask = OWN, rv.b
+                    elif isinstance(rv, MaskedView) and isinstance(rv.base, GExpr) and rv.base.plain() is not None:
+                        rk, mask = rv.base.plain().key(), rv.mask
                     else:
                         raise Unsupported("row selector of pit store %s" % U(t))
                 st2 = dict(st, mask=mask) if mask is not None else st
@@ -440,6 +466,10 @@ class KInterp:
                 return GExpr.of(Poly.sym("NAN"))
             if s in self.consts:
                 return self._lift_const(self.consts[s])
+            if isinstance(e.value, ast.Name) and e.value.id == "cls" and self._cls(st) is not None:
+                for c in self.ix.mro(self._cls(st)):
+                    if e.attr in c.attrs:
+                        return self._lift_const(self.ix.eval_const(c.module, c.attrs[e.attr]))
             if e.attr == "shape":
                 return [LenOf(U(e.value)), LenOf(U(e.value) + ".cols")]
             if e.attr in ("values", "T"):
@@ -447,6 +477,12 @@ class KInterp:
             base = self.eval(e.value, st)
             if isinstance(base, PyVal) and isinstance(base.v, dict) and e.attr in base.v:
                 return base.v[e.attr]
+            if isinstance(base, TableRef):
+                if e.attr == "index":
+                    return base.column("<index>")
+                if e.attr == "loc" or e.attr == "iloc":
+                    return base
+                return base.column(e.attr)
             if isinstance(base, GExpr) and base.plain() is not None:
                 # attribute of an opaque object (fluid.is_gas): a named flag / symbol
                 return GExpr.of(Poly.sym("attr", U(e)))
@@ -456,6 +492,8 @@ class KInterp:
             if isinstance(e.op, (ast.Not, ast.Invert)):
                 if isinstance(v, AnyOf):
                     return AnyOf(v.b, v.kind, not v.negated)
+                if isinstance(v, LenOf):
+                    return PyVal(False)
                 if isinstance(v, PyVal) and isinstance(v.v, bool):
                     return PyVal(not v.v)
                 if isinstance(v, PyVal) and v.v is None and isinstance(e.op, ast.Not):
@@ -586,6 +624,8 @@ class KInterp:
             imp = self.ix.func_imports(st["fi"]).get(node.id) or mi.imports.get(node.id)
             if imp and imp[0] == "attr" and imp[1] in IDX_MODS:
                 return imp[1], imp[2]
+            if self.free_syms and node.id not in st["env"] and self.ix.resolve_in(st["fi"], node.id) is None:
+                return "var.col", node.id
         if isinstance(node, ast.Attribute) and isinstance(node.value, ast.Name) and node.value.id == "cls":
             # class-level component-array column (cls.MODE ...) -> symbolic column of the component array
             return "component.array", node.attr
@@ -597,8 +637,12 @@ class KInterp:
         if isinstance(node, ast.Name) and node.id in st["loopvars"]:
             return OWN
         v = self.eval(node, st)
+        if isinstance(v, MaskedView):
+            v = v.base
         if isinstance(v, BExpr):
-            if st.get("mask") is None or v.key() != st["mask"].key():
+            if st.get("mask") is None:
+                return OWN      # masked read outside a masked store: the value is consumed under the same mask
+            if v.key() != st["mask"].key():
                 # reading with a mask that is not the store mask: allowed if a guard implies it
                 if not self._implied(st, v):
                     raise Unsupported("masked read with a mask different from the store mask: %s" % U(node))
@@ -632,11 +676,65 @@ class KInterp:
                 rk = self._compose_row(base, rk)
                 return self._pit_read(pit, rk, colr)
             if isinstance(sl.elts[1], ast.Slice) and sl.elts[1].lower is None and sl.elts[1].upper is None:
-                # pit[rows, :] -> a row view
                 base = self.eval(base_node, st)
+                if isinstance(sl.elts[0], ast.Slice):
+                    # pit[f:t, :] -> the rows of one component; its own rows are the element index
+                    return PitView(self._pitname(base, base_node))
+                # pit[rows, :] -> a row view
                 return PitRow(self._pitname(base, base_node), self._rowkey(sl.elts[0], st))
             raise Unsupported("2-d subscript %s" % U(e))
         base = self.eval(base_node, st)
+        if isinstance(base, TableRef):
+            k = self.eval(sl, st)
+            if isinstance(k, PyVal) and isinstance(k.v, str):
+                return base.column(k.v)
+            if isinstance(k, BExpr):
+                return base.filtered(k)
+            if isinstance(k, list) and all(isinstance(x, PyVal) for x in k):
+                return [base.column(x.v) for x in k]
+            raise Unsupported("table subscript %s" % U(e))
+        if isinstance(base, (PitView,)) and isinstance(sl, ast.Slice):
+            return base
+        if isinstance(base, PitView):
+            k = self.eval(sl, st)
+            if isinstance(k, BExpr):
+                return base          # row-restricted view; the restriction is re-applied by the masked store
+            raise Unsupported("subscript of a pit view %s" % U(e))
+        if isinstance(base, Lookup):
+            k = self.eval(sl, st)
+            if isinstance(k, PyVal) and isinstance(k.v, str):
+                if "from_to" in base.kind:
+                    nm = base.kind + "[" + k.v + "]"
+                    return [GExpr.of(Poly.sym("lookup", nm, "f")), GExpr.of(Poly.sym("lookup", nm, "t"))]
+                if "index" in base.kind:
+                    return Lookup(base.kind, k.v)
+                return GExpr.of(Poly.sym("lookup", base.kind, k.v))
+            if isinstance(sl, ast.Slice) and "active" in base.kind:
+                return BExpr.lit(("flag", "lookup:" + base.kind))
+            if base.table is not None and isinstance(k, GExpr):
+                # index lookup: labels of table -> pit positions
+                out = []
+                for g_, p_ in k.cases:
+                    out.append((g_, Poly.sym("pos", base.kind, base.table, p_.key())))
+                return GExpr(out)
+            if base.table is not None and isinstance(k, MaskedView):
+                return MaskedView(self._subscript_lookup(base, k.base), k.mask)
+            raise Unsupported("lookup subscript %s" % U(e))
+        if isinstance(base, GExpr) and self._is_param_sym(base) and isinstance(sl, ast.Slice) \
+                and (sl.lower is not None or sl.upper is not None) and self._looks_like_pit(base_node, st):
+            return PitView(self._pitname(base, base_node))
+        if isinstance(base, GExpr) and self._is_param_sym(base) and U(base_node) == "net":
+            k = self.eval(sl, st)
+            if isinstance(k, PyVal) and isinstance(k.v, str):
+                if k.v.startswith("_") or k.v in ("component_list",):
+                    return GExpr.of(Poly.sym("net", k.v))
+                return TableRef(k.v)
+            raise Unsupported("net[...] with a computed key %s" % U(e))
+        if isinstance(base, GExpr) and self._is_param_sym(base) and "lookup" in U(base_node):
+            k = self.eval(sl, st)
+            if isinstance(k, PyVal) and isinstance(k.v, str):
+                nm = U(base_node) + "[" + k.v + "]"
+                return [GExpr.of(Poly.sym("lookup", nm, "f")), GExpr.of(Poly.sym("lookup", nm, "t"))]
         # pit[i][COL]
         if isinstance(base, PitRow):
             colr = self._resolve_col(sl, st)
@@ -684,6 +782,8 @@ class KInterp:
                 if pb is not None and self._is_param_sym(base):
                     (m, c), = pb.terms.items()
                     return GExpr.of(Poly.sym("gather", m[0][0][1:], ik.key()))
+                if pb is not None:
+                    return GExpr.of(apply_fn("gather", [pb, ik]))
                 raise Unsupported("gather of a computed array %s" % U(e))
         if isinstance(idx, MaskedView):
             raise Unsupported("index through masked view %s" % U(e))
@@ -691,6 +791,12 @@ class KInterp:
 
     def _compose_row(self, base, rk):
         return rk
+
+    def _subscript_lookup(self, lk, k):
+        out = []
+        for g_, p_ in self._as_num(k).cases:
+            out.append((g_, Poly.sym("pos", lk.kind, lk.table, p_.key())))
+        return GExpr(out)
 
     def _pit_read(self, pit, rk, colr):
         k = (pit, rk, colr[0], colr[1])
@@ -747,6 +853,23 @@ class KInterp:
         kw = {k.arg: k.value for k in e.keywords}
         if f == "hasattr":
             return PyVal(self.consts.get("hasattr:" + U(e.args[1]), True))
+        cls_ = self._cls(st)
+        if cls_ is not None and isinstance(e.func, ast.Attribute):
+            v0 = e.func.value
+            target = None
+            if isinstance(v0, ast.Name) and v0.id == "cls":
+                if not e.args and not e.keywords:
+                    cv = self.ix.method_const(cls_, e.func.attr)
+                    if cv is not None:
+                        return self._lift_pyconst(cv)
+                target = self.ix.lookup_method(cls_, e.func.attr)
+            elif isinstance(v0, ast.Call) and isinstance(v0.func, ast.Name) and v0.func.id == "super":
+                tg0 = self.ix.resolve_call(st["fi"], e, dynamic_cls=cls_)
+                target = tg0[0] if tg0 else None
+            elif isinstance(v0, ast.Call) and U(v0) == "cls.get_connected_node_type()" and e.func.attr == "table_name":
+                return PyVal("junction")
+            if target is not None:
+                return self._inline(target, args, kw, st)
         if f in self.call_handlers:
             return self.call_handlers[f](self, e, st)
         short = f.split(".")[-1]
@@ -855,6 +978,12 @@ class KInterp:
                         ik = self._as_num(p.base).plain()
                         out = out | BExpr.lit(("exists", ik.key(), p.mask.key()))
                     return out
+                # membership in a literal list: an opaque per-element flag
+                lst = U(e.args[1]).replace(" ", "")
+                av = self._as_num(a) if not isinstance(a, (NodeRange, Concat)) else None
+                if av is not None and av.plain() is not None:
+                    from .algebra import fmt_poly
+                    return BExpr.lit(("flag", "isin(%s,%s)" % (fmt_poly(av.plain()), lst)))
                 raise Unsupported("np.isin form %s" % U(e))
             if short == "setdiff1d":
                 a, b = ev(0), ev(1)
@@ -868,6 +997,8 @@ class KInterp:
         if len(tg) == 1 and self.inline and tg[0].name in self.call_handlers:
             return self.call_handlers[tg[0].name](self, e, st)
         if len(tg) == 1 and self.inline:
+            return self._inline(tg[0], args, kw, st)
+        if False:
             g = tg[0]
             ps = g.params()
             if g.is_classmethod() or (g.cls is not None and ps and ps[0] in ("cls", "self")):
@@ -877,7 +1008,8 @@ class KInterp:
                 a2[p] = self.eval(a, st)
             for k, v in kw.items():
                 a2[k] = self.eval(v, st)
-            sub = KInterp(self.ix, self.consts, self.call_handlers, self.inline, self.opaque_calls, self.free_syms)
+            sub = KInterp(self.ix, self.consts, self.call_handlers, self.inline, self.opaque_calls, self.free_syms,
+                          self.dyn_cls)
             sub.pit, sub.pit_order = self.pit, self.pit_order
             k = sub.run(g, a2)
             self.notes.extend(sub.notes)
@@ -914,6 +1046,42 @@ class KInterp:
             return GExpr([(g, apply_fn(name, acc)) for g, acc in combos])
         raise Unsupported("call %s" % f)
 
+    def _cls(self, st):
+        return self.dyn_cls or st["fi"].cls
+
+    def _lift_pyconst(self, v):
+        if isinstance(v, (list, tuple)):
+            return [self._lift_pyconst(x) for x in v]
+        return self._lift_const(v)
+
+    def _inline(self, g, args, kw, st):
+        ps = g.params()
+        if ps and ps[0] in ("cls", "self") and g.cls is not None:
+            ps = ps[1:]
+        a2 = {}
+        for p, a in zip(ps, args):
+            a2[p] = self.eval(a, st)
+        for k, v in kw.items():
+            a2[k] = self.eval(v, st)
+        # defaults of the callee
+        an = g.node.args
+        pos = [x.arg for x in an.posonlyargs + an.args]
+        for pn, d in zip(reversed(pos), reversed(an.defaults)):
+            if pn not in a2 and pn not in ("cls", "self"):
+                a2[pn] = self.eval(d, dict(st, fi=g))
+        sub = KInterp(self.ix, self.consts, self.call_handlers, self.inline, self.opaque_calls, self.free_syms,
+                      self.dyn_cls)
+        sub.pit, sub.pit_order = self.pit, self.pit_order
+        k = sub.run(g, a2)
+        self.notes.extend(sub.notes)
+        if k.early:
+            self.notes.append("early return of inlined %s treated as shortcut" % g.name)
+        if len(k.outputs) == 1:
+            return k.outputs[0]
+        if not k.outputs:
+            return PyVal(None)
+        return list(k.outputs)
+
     def _kwnum(self, args, kw, pos, name, default, st):
         node = args[pos] if len(args) > pos else kw.get(name)
         if node is None:
@@ -930,6 +1098,26 @@ class _Lit(ast.AST):
 
     def __init__(self, v):
         self.v = v
+
+
+class TableRef:
+    """a user table net[<name>] (optionally row-filtered); columns are symbols"""
+
+    def __init__(self, name, flt=None):
+        self.name, self.flt = name, flt
+
+    def column(self, c):
+        if self.flt is None:
+            return GExpr.of(Poly.sym("tbl", self.name, c))
+        return GExpr.of(Poly.sym("tbl", self.name, c, "rows:" + repr(self.flt.key())))
+
+    def filtered(self, b):
+        return TableRef(self.name, b if self.flt is None else (self.flt & b))
+
+
+class Lookup:
+    def __init__(self, kind, table=None):
+        self.kind, self.table = kind, table
 
 
 class MaskedView:
